@@ -193,6 +193,78 @@ func c06Positional(c *Ctx) {
 	c.Check("D", fnName(fn)+"/the two validator lists are never paired by position", n >= 2 && bad == "", fn.Pos(), n, bad)
 }
 
+func c19Round3(c *Ctx) {
+	// a restarted pool knows how much pending evidence it reloaded (the proposer offers nothing from a pool of size 0)
+	if fn := c.Fn("types/evidence", "", "NewPool"); fn != nil {
+		n := 0
+		for _, in := range findInstrs(fn, CallTo(`^sync/atomic\.StoreUint32$`, "")) {
+			a := argPaths(callCommon(in))
+			if len(a) == 2 && strings.HasSuffix(a[0], ".evidenceSize") && re(`^call:len\(call:\(\*types/evidence\.Pool\)\.listEvidence\(.*\)#0\)$`).MatchString(a[1]) {
+				n++
+			}
+		}
+		c.Check("F", fnName(fn)+"/the pool size is the number of pending items reloaded", n == 1, fn.Pos(), n, "")
+	}
+	// every item of a block's evidence list takes part in the duplicate scan, also the ones the pool already knows
+	if fn := c.Fn("types/evidence", "Pool", "CheckEvidence"); fn != nil {
+		c.FollowedBy(fn, "look at an item", CallTo(`^\(\*types/evidence\.Pool\)\.fastCheck$`, ""), "record its hash for the duplicate scan",
+			StoreTo(`^&make:\[\]lib/common\.Hash\(call:len\(evList\)\)\[`), "the next item or the verdict", Or(IfOn(`< call:len\(evList\)\)$`), ReturnWith(0, `^nil$`)))
+	}
+}
+
+func c15Round3(c *Ctx) {
+	// one record, one Write: the group takes its lock per Write and rotates between Writes, a record written in two pieces
+	// can be cut by a rotation (the next file then starts in the middle of a record)
+	if fn := c.Fn("consensus", "WALEncoder", "Encode"); fn != nil {
+		wr := CallTo(`^iface:\(io\.Writer\)\.Write$`, "")
+		n := len(findInstrs(fn, wr))
+		c.Check("O", fnName(fn)+"/a record is handed to the writer in one Write", n == 1, fn.Pos(), n, "")
+		c.AtMostOncePerPath(fn, "Write", wr)
+	}
+	// open flags of the files the log lives in: the backup a repair reads from replaces an older backup (truncate), the
+	// log file itself is only ever appended to
+	flagRule := func(fn *ssa.Function, what string, must int64, desc string) {
+		if fn == nil {
+			return
+		}
+		n, ok := 0, true
+		for _, in := range findInstrs(fn, CallTo(`^os\.OpenFile$`, "")) {
+			n++
+			k, isK := callCommon(in).Args[1].(*ssa.Const)
+			ok = ok && isK && k.Value != nil && k.Int64()&must == must
+		}
+		c.Check("F", fnName(fn)+"/"+what, n == 1 && ok, fn.Pos(), n, desc)
+	}
+	flagRule(c.Fn("lib/os", "", "CopyFile"), "the destination is created or truncated", 0x40|0x200, "O_CREATE|O_TRUNC (linux values) must be among the open flags")
+	flagRule(c.Fn("lib/autofile", "AutoFile", "openFile"), "the log file is opened for appending", 0x40|0x400, "O_CREATE|O_APPEND (linux values) must be among the open flags")
+}
+
+func c14Round3(c *Ctx) {
+	// what a restart hands to consensus is the saved state as loaded (or the freshly made genesis state): nothing is
+	// written into it on the way out
+	if fn := c.Fn("kai/state/cstate", "dbStore", "LoadStateFromDBOrGenesisDoc"); fn != nil {
+		ok, n := true, 0
+		for _, in := range findInstrs(fn, ReturnWith(1, `^nil$`)) {
+			n++
+			for _, pcase := range phiCases(in.(*ssa.Return).Results[0]) {
+				v := pathOf(pcase.Val)
+				if v != "call:(*kai/state/cstate.dbStore).Load(s)" && v != "call:kai/state/cstate.MakeGenesisState(genesisDoc)#0" {
+					ok = false
+				}
+			}
+		}
+		stores := 0
+		allInstrs(fn, false, func(_ *ssa.Function, in ssa.Instruction) {
+			if st, isSt := in.(*ssa.Store); isSt {
+				if fa, isFa := st.Addr.(*ssa.FieldAddr); isFa && namedOf(fa.X.Type()) == "kai/state/cstate.LatestBlockState" {
+					stores++
+				}
+			}
+		})
+		c.Check("F", fnName(fn)+"/returns the loaded state (or the new genesis state) untouched", ok && n == 1 && stores == 0, fn.Pos(), n+stores, "")
+	}
+}
+
 func c20Round3(c *Ctx) {
 	// a graceful stop sends until nothing is pending
 	if fn := c.Fn("lib/p2p/conn", "MConnection", "FlushStop"); fn != nil {
